@@ -51,7 +51,7 @@ fn c14_q_xlsb_ref_row0_l1() {
 #[kani::proof]
 #[kani::unwind(14)]
 #[kani::stub(crate::utils::push_column, crate::k_kcommon::model_push_column_l2)]
-fn c14_q_xlsb_ref_row9_l2() {
+fn c14_t_xlsb_ref_row9_l2() {
     ptg_ref_case::<0x44, 9, 2, 26, 702, 2>()
 }
 #[kani::proof]
